@@ -60,13 +60,20 @@ class Cluster:
         self._merged = False
         self._bond_threshold = bond_threshold
         self._distance_matrix_radii_mic = None
+        self._distance_matrix_indices = None
 
     def __len__(self):
         return len(self.indices)
 
     def _get_distance_matrix_radii_mic(self) -> np.ndarray:
         """Retrieves the distance matrix with subtracted radii for this cluster."""
-        if self._distance_matrix_radii_mic is None:
+        # The cached matrix is only valid for the indices it was created with:
+        # the indices may get updated after the matrix has been requested.
+        if (
+            self._distance_matrix_radii_mic is None
+            or self._distance_matrix_indices != list(self.indices)
+        ):
+            self._distance_matrix_indices = list(self.indices)
             self._distance_matrix_radii_mic = self._distances.dist_matrix_radii_mic[
                 np.ix_(self.indices, self.indices)
             ]
